@@ -11,7 +11,6 @@ import shutil as real_shutil
 import sys
 import threading
 import time as real_time
-import weakref
 
 from . import tty as simtty
 from .core import HarnessError
@@ -28,6 +27,11 @@ _PROC_START = multiprocessing.context.Process.start
 _PROC_RUN = multiprocessing.context.Process.run
 _pty = None
 _warm = False
+CURRENT_KERNEL = [None]
+
+
+def current_kernel():
+    return CURRENT_KERNEL[0]
 
 
 def src_dir():
@@ -93,12 +97,11 @@ def fresh_import(kernel=None, with_widget=False, sim_locks=True):
     purge()
     if _pty is None:
         _pty = os.openpty()
-    kref = weakref.ref(kernel) if kernel is not None else (lambda: None)
     counter = [0]
 
     def rlock_factory():
         counter[0] += 1
-        return SimRLock(kref, "rlock%d" % counter[0])
+        return SimRLock(current_kernel, "rlock%d" % counter[0])
 
     old_stdout = sys.__stdout__
     sys.__stdout__ = _FakeStd(_pty[1])
@@ -136,27 +139,42 @@ def fresh_import(kernel=None, with_widget=False, sim_locks=True):
     return b
 
 
-def install_seams(kernel, tty, stdout=None, http=None):
-    """Identity scan: every global of every term_image module that *is* one of the real
-    nondeterminism sources is replaced by its simulated counterpart."""
-    fos = simtty.FakeOS(tty)
-    ftermios = simtty.FakeTermios(tty)
-    ffcntl = simtty.FakeFcntl(tty)
-    fselect = simtty.make_select(tty)
-    fshutil = simtty.make_shutil_size(tty)
+_SLOTS = {"boot": None, "slots": None}
+
+
+def _scan_slots(boot):
+    """Identity scan (once per import): every global of every term_image module that
+    *is* one of the real nondeterminism sources is recorded as a seam slot."""
     import fcntl as real_fcntl
     import termios as real_termios
-    table = [
-        (_real["sleep"], kernel.sleep),
-        (_real["time"], kernel.time),
-        (_real["monotonic"], kernel.monotonic),
-        (_real["perf_counter_ns"], kernel.perf_counter_ns),
-        (_real["select"], fselect),
-        (_real["get_terminal_size"], fshutil),
-        (os, fos),
-        (real_termios, ftermios),
-        (real_fcntl, ffcntl),
+    kinds = [
+        (_real["sleep"], "sleep"), (_real["time"], "time"), (_real["monotonic"], "monotonic"),
+        (_real["perf_counter_ns"], "perf_counter_ns"), (_real["select"], "select"),
+        (_real["get_terminal_size"], "shutil_size"), (os, "os"), (real_termios, "termios"),
+        (real_fcntl, "fcntl"), (real_time, "timemod"),
     ]
+    try:
+        import requests
+        kinds.append((requests, "requests"))
+    except ImportError:
+        pass
+    slots = []
+    for name, mod in sorted(sys.modules.items()):
+        if not (name == "term_image" or name.startswith("term_image.")) or mod is None:
+            continue
+        d = mod.__dict__
+        for gname, val in list(d.items()):
+            for real, kind in kinds:
+                if val is real:
+                    slots.append((d, gname, kind, real))
+                    break
+    return slots
+
+
+def install_seams(boot, kernel, tty, stdout=None, http=None):
+    if _SLOTS["boot"] is not boot:
+        _SLOTS["boot"] = boot
+        _SLOTS["slots"] = _scan_slots(boot)
 
     class FakeTime:
         def __getattr__(self, name):
@@ -166,30 +184,44 @@ def install_seams(kernel, tty, stdout=None, http=None):
         monotonic = staticmethod(kernel.monotonic)
         perf_counter_ns = staticmethod(kernel.perf_counter_ns)
 
-    table.append((real_time, FakeTime()))
+    fakes = {
+        "sleep": kernel.sleep, "time": kernel.time, "monotonic": kernel.monotonic,
+        "perf_counter_ns": kernel.perf_counter_ns, "select": simtty.make_select(tty),
+        "shutil_size": simtty.make_shutil_size(tty), "os": simtty.FakeOS(tty),
+        "termios": simtty.FakeTermios(tty), "fcntl": simtty.FakeFcntl(tty),
+        "timemod": FakeTime(),
+    }
     if http is not None:
-        try:
-            import requests
-            table.append((requests, http))
-        except ImportError:
-            pass
-    replaced = 0
-    for name, mod in list(sys.modules.items()):
-        if not (name == "term_image" or name.startswith("term_image.")) or mod is None:
-            continue
-        d = mod.__dict__
-        for gname, val in list(d.items()):
-            for real, fake in table:
-                if val is real:
-                    d[gname] = fake
-                    replaced += 1
-                    break
+        fakes["requests"] = http
+    for d, gname, kind, real in _SLOTS["slots"]:
+        d[gname] = fakes.get(kind, real)
     if stdout is not None:
         for modname in ("term_image.image.kitty", "term_image.image.iterm2"):
             m = sys.modules.get(modname)
             if m is not None and hasattr(m, "_stdout_write"):
                 m._stdout_write = stdout.write
-    return replaced
+    return len(_SLOTS["slots"])
+
+
+_REUSE = {"boot": None, "widget": False}
+
+
+def reset_module_state(boot):
+    """For worlds that reuse an import: put term_image's process-global state back to
+    what a fresh import leaves (used only by properties that do not depend on it)."""
+    u = boot.utils
+    ti = boot.term_image
+    u._query_timeout = 0.1
+    u._queries_enabled = True
+    u._swap_win_size = False
+    u._tty_fd = simtty.FD_TTY
+    u._cell_size_cache = [0] * 4
+    u._tty_lock = SimRLock(current_kernel, "tty_lock")
+    u._cell_size_lock = SimRLock(current_kernel, "cell_lock")
+    for fn in (u.get_fg_bg_colors, u.get_terminal_name_version):
+        fn._invalidate_cache()
+    ti._cell_ratio = 0.5
+    ti.AutoCellRatio.is_supported = None
 
 
 class World:
@@ -197,7 +229,7 @@ class World:
 
     def __init__(self, ctx, ch, fault=None, rows=24, cols=80, profile=None,
                  cell_px=(8, 16), with_widget=False, stdout_tty=True, buffered=False,
-                 retain=False, prefill=True, http=None):
+                 retain=False, prefill=True, http=None, reuse=False):
         self.ctx = ctx
         self.ch = ch
         self.k = Kernel(ctx, ch, fault)
@@ -205,10 +237,19 @@ class World:
         self.tty = simtty.SimTTY(self.k, self.vt)
         self.out = simtty.SimStdout(self.k, self.tty if stdout_tty else None,
                                     isatty=stdout_tty, buffered=buffered, retain=retain)
-        self.boot = fresh_import(self.k, with_widget=with_widget)
+        CURRENT_KERNEL[0] = self.k
+        if reuse and _REUSE["boot"] is not None and (_REUSE["widget"] or not with_widget):
+            self.boot = _REUSE["boot"]
+            reset_module_state(self.boot)
+        else:
+            self.boot = fresh_import(self.k, with_widget=with_widget)
+            _REUSE["boot"] = self.boot if reuse else None
+            _REUSE["widget"] = with_widget
+            if reuse:
+                reset_module_state(self.boot)
         self.ti = self.boot.term_image
         self.utils = self.boot.utils
-        install_seams(self.k, self.tty, self.out, http)
+        install_seams(self.boot, self.k, self.tty, self.out, http)
         self._old_stdout = None
         self._gc = None
 
@@ -228,10 +269,11 @@ class World:
         self.ctx.sim_ns += self.k.now
         common = sys.modules.get("term_image.image.common")
         tmpd = getattr(common, "_TEMP_DIR", None)
-        if tmpd and os.path.isdir(tmpd):
+        if tmpd and os.path.isdir(tmpd) and _REUSE["boot"] is not self.boot:
             import shutil
             shutil.rmtree(tmpd, ignore_errors=True)
         self.k.abort_tasks() if self.k.tasks else None
+        CURRENT_KERNEL[0] = None
         return False
 
 
